@@ -1,6 +1,7 @@
 package verifsim
 
 import (
+	"path/filepath"
 	"bytes"
 	"crypto/ecdsa"
 	"crypto/elliptic"
@@ -259,7 +260,7 @@ func runC16(w *World, tr *Trace) {
 			}
 			steps = append(steps, st)
 		}
-		restartMode = pick(r, []string{"", "plain", "snapshot", "rewrite", "expire"})
+		restartMode = pick(r, []string{"", "plain", "snapshot", "rewrite", "expire", "crash", "crash"})
 	}
 	w.Opts = w.defaultOpts()
 	w.Opts.AutoSaveInterval = 0
@@ -418,12 +419,31 @@ func runC16(w *World, tr *Trace) {
 			s.do("POST", "/system/aof-rewrite", c16Root, nil)
 			advance(10 * time.Millisecond)
 		}
+		crashDir := ""
+		if restartMode == "crash" {
+			// the process dies right after the revocation was acknowledged: what is in the data directory at that
+			// instant (no simulated time has passed since the answer) is all the restarted server gets
+			s.issue("crash_revoked", "write", []string{"*"})
+			advance(150 * time.Millisecond) // the issue itself is on disk by now
+			if rec := s.do("DELETE", "/auth/keys/"+s.jtis["crash_revoked"], c16Root, nil); rec.Code != 200 {
+				panic(harnessErr{"revoke: " + rec.Body.String()})
+			}
+			crashDir = filepath.Join(w.Scratch, "crash-image")
+			if err := copyTree(w.Dir, crashDir); err != nil {
+				panic(harnessErr{"crash image: " + err.Error()})
+			}
+			w.FaultFired("crash_image_after_revocation_ack")
+		}
 		old := s
 		if err := w.closeEngine(); err != nil {
 			w.Fail("restart", "close_error", err.Error(), -1)
 			return
 		}
 		settle()
+		if crashDir != "" {
+			w.Opts.DataDir = crashDir
+			w.Dir = crashDir
+		}
 		if restartMode == "expire" {
 			advance(91 * 24 * time.Hour)
 		}
@@ -437,7 +457,7 @@ func runC16(w *World, tr *Trace) {
 		probe := func(name string) int {
 			return s.do("GET", "/vector/indexes/alpha", s.tokens[name], nil).Code
 		}
-		for _, name := range []string{"revoked", "late_revoked", "post_snap_revoked"} {
+		for _, name := range []string{"revoked", "late_revoked", "post_snap_revoked", "crash_revoked"} {
 			if s.tokens[name] == "" {
 				continue
 			}
@@ -460,7 +480,7 @@ func runC16(w *World, tr *Trace) {
 				return
 			}
 		}
-		if restartMode != "expire" {
+		if restartMode != "expire" && restartMode != "crash" {
 			runSteps("after " + restartMode + " restart")
 		}
 		w.closeEngine()
